@@ -217,8 +217,6 @@ impl<T: Qcow2IoOps> Qcow2Dev<T> {
         let mut len = buf.len();
         let old_offset = offset;
         let old_len = len;
-        let single =
-            (offset >> info.cluster_bits()) == ((offset + (len as u64) - 1) >> info.cluster_bits());
 
         if offset >= vsize {
             if !info.is_back_file() {
@@ -270,6 +268,10 @@ impl<T: Qcow2IoOps> Qcow2Dev<T> {
         if len == 0 {
             return Ok(extra);
         }
+
+        // arguments are validated now, so this can't overflow
+        let single =
+            (offset >> info.cluster_bits()) == ((offset + (len as u64) - 1) >> info.cluster_bits());
 
         let done = if single {
             let l2_entry = self.get_l2_entry(offset).await?;
